@@ -644,6 +644,8 @@ theorem innerOutput_scale (hk : 0 < k) (style : Style Rat) (ps : Size (Option Ra
         (scale k ft) (scale k lb) =
       scale k (innerOutput style ps ic items fos ics acs ft lb) := by
   simp only [innerOutput, scale_lo_mk, allInFlowCollapsible_scale, scale_simp, hk]
+  cases ic.ownMarginsCollapseWithChildren.start <;> cases ic.ownMarginsCollapseWithChildren.end <;>
+    simp only [scale_ms_zero, Bool.false_eq_true, if_false, if_true]
 
 theorem flowCtxOf_scale (hk : 0 < k) (style : Style Rat) (ic : InnerCtx Rat) (w : Rat) :
     flowCtxOf (scale k style) (scale k ic) (scale k w) = scale k (flowCtxOf style ic w) := by
